@@ -350,7 +350,19 @@ static std::string stepOld(const Toks& t)
 		else *sess->t << v;
 		return "ok";
 	}
-	if (op == "r" || op == "rl" || op == "rlc" || op == "end" || op == "seek" || op == "pos") {
+	if (op == "rlc" && t.size() == 2) {
+		// readLine(char) is offered in every mode: on an object opened for writing it must come back empty-handed
+		std::string d = unhex(t[1]);
+		if (d.size() != 1) return "bad-op";
+		if (!sess) return "err nosession";
+		if (!sess->t) return "err kind";
+		if (sess->mode == 3) return "err mode";                 // "r+": reading right after writing is undefined in C
+		std::string c;
+		if (sess->mode == 0 && rawRead(*sess->t->path(), c) && hasNul(c)) return "err nul";
+		String s = sess->t->readLine(d[0]);
+		return showBytes(s) + " " + b01(sess->t->end());
+	}
+	if (op == "r" || op == "rl" || op == "end" || op == "seek" || op == "pos") {
 		if (!sess) return "err nosession";
 		if (sess->mode != 0) return "err mode";
 		if (op == "r" && t.size() == 2) {
@@ -367,15 +379,6 @@ static std::string stepOld(const Toks& t)
 			bool r = sess->t->readLine(sess->line);
 			if ((int)strlen(*sess->line) != sess->line.length()) return "err strlen-mismatch";
 			return b01(r) + " " + showBytes(sess->line) + " " + b01(sess->t->end());
-		}
-		if (op == "rlc" && t.size() == 2) {
-			std::string d = unhex(t[1]);
-			if (d.size() != 1) return "bad-op";
-			if (!sess->t) return "err kind";
-			std::string c;
-			if (rawRead(*sess->t->path(), c) && hasNul(c)) return "err nul";
-			String s = sess->t->readLine(d[0]);
-			return showBytes(s) + " " + b01(sess->t->end());
 		}
 		if (op == "end" && t.size() == 1) return b01(sess->t ? sess->t->end() : sess->f->end());
 		if (op == "seek" && t.size() == 2) {
@@ -483,6 +486,22 @@ static std::string stepOld(const Toks& t)
 		}
 		if (op == "xreopen") r += " " + rawStr(0);
 		return r;
+	}
+	if (op == "xdirrlc" && t.size() == 1) {
+		// readLine(char) on a path that opens but cannot be read must come back (repair 95952ce)
+		return showBytes(TextFile(String((root1 + "/d1").c_str())).readLine('\n'));
+	}
+	if (op == "xwrlc" && t.size() == 2) {
+		// readLine(char) through an object that has just written (must come back), then after close()
+		if (!parseBytes(t[1], bs)) return "bad-op";
+		unlink(pathOf(0).c_str());
+		Exact e(bs);
+		TextFile f(P(0));
+		f.write(S(e));
+		std::string r = showBytes(f.readLine('\n'));
+		f.close();
+		if (hasNul(bs)) return r + " err nul";
+		return r + " " + showBytes(f.readLine('\n'));
 	}
 	if (op == "xdirlines" && t.size() == 1) {
 		// a path that can be opened but not read (a directory): fgets fails without reaching the end of the file;
@@ -770,7 +789,19 @@ static std::string hstep(const Toks& t)
 	return "bad-op";
 }
 
+static std::string step2(const Toks& t);
+
+// every operation runs under a watchdog: a library call that does not come back (a loop that never ends) is reported
+// as a crash (SIGALRM) after 8 s instead of growing until the memory is exhausted
 static std::string step(const Toks& t)
+{
+	alarm(8);
+	std::string r = step2(t);
+	alarm(0);
+	return r;
+}
+
+static std::string step2(const Toks& t)
 {
 	const std::string& op = t[0];
 	static const char* hops[] = { "hnew", "hopen", "hclose", "hflush", "hw", "happ", "hput", "hsh", "hsize", "hexists", "hisfile",
